@@ -75,6 +75,7 @@ type Exec struct {
 	noDef          bool
 	loopHeapStored map[*ssa.Alloc]bool
 	siteNames      map[*ssa.Function]map[token.Pos]string
+	siteCanon      map[*ssa.Function]map[token.Pos]string
 	curLoopHead    *ssa.BasicBlock
 	embCodes       map[string]int
 	given          map[string]Val
@@ -134,6 +135,92 @@ func (x *Exec) callSites(fn *ssa.Function) map[token.Pos]string {
 	return m
 }
 
+// callSitesCanon names the same call expressions by what is called instead of how it is written:
+// "(*maphash.Hash).Sum64#0", "bitStream.drawBits#1", "os.Rename#0" - stable under renamed locals and receivers.
+func (x *Exec) callSitesCanon(fn *ssa.Function) map[token.Pos]string {
+	if x.siteCanon == nil {
+		x.siteCanon = map[*ssa.Function]map[token.Pos]string{}
+	}
+	if m, ok := x.siteCanon[fn]; ok {
+		return m
+	}
+	m := map[token.Pos]string{}
+	x.siteCanon[fn] = m
+	syn := fn.Syntax()
+	if syn == nil || x.tpkg == nil || x.tpkg.TypesInfo == nil {
+		return m
+	}
+	info := x.tpkg.TypesInfo
+	home := x.pkg.Pkg
+	type cs struct {
+		pos  token.Pos
+		name string
+	}
+	var all []cs
+	ast.Inspect(syn, func(n ast.Node) bool {
+		c, ok := n.(*ast.CallExpr)
+		if !ok {
+			return true
+		}
+		fun := ast.Unparen(c.Fun)
+		if ix, ok := fun.(*ast.IndexExpr); ok {
+			fun = ix.X
+		}
+		if ix, ok := fun.(*ast.IndexListExpr); ok {
+			fun = ix.X
+		}
+		var obj types.Object
+		switch f := fun.(type) {
+		case *ast.Ident:
+			obj = info.Uses[f]
+		case *ast.SelectorExpr:
+			if sel := info.Selections[f]; sel != nil {
+				obj = sel.Obj()
+			} else {
+				obj = info.Uses[f.Sel]
+			}
+		}
+		tf, ok := obj.(*types.Func)
+		if !ok {
+			return true
+		}
+		name := tf.Name()
+		if sig, ok := tf.Type().(*types.Signature); ok && sig.Recv() != nil {
+			rt := sig.Recv().Type()
+			ptr := ""
+			if p, ok := rt.(*types.Pointer); ok {
+				ptr = "*"
+				rt = p.Elem()
+			}
+			rt = types.Unalias(rt)
+			tn := rt.String()
+			if nt, ok := rt.(*types.Named); ok {
+				tn = nt.Obj().Name()
+				if nt.Obj().Pkg() != nil && nt.Obj().Pkg() != home {
+					tn = nt.Obj().Pkg().Name() + "." + tn
+				}
+				if _, isIface := nt.Underlying().(*types.Interface); isIface {
+					name = tn + "." + name
+					all = append(all, cs{c.Lparen, name})
+					return true
+				}
+			}
+			name = "(" + ptr + tn + ")." + name
+		} else if tf.Pkg() != nil && tf.Pkg() != home {
+			name = tf.Pkg().Name() + "." + name
+		}
+		all = append(all, cs{c.Lparen, name})
+		return true
+	})
+	sort.Slice(all, func(i, j int) bool { return all[i].pos < all[j].pos })
+	cnt := map[string]int{}
+	for _, c := range all {
+		m[c.pos] = fmt.Sprintf("%s#%d", c.name, cnt[c.name])
+		cnt[c.name]++
+	}
+	return m
+}
+
 // siteAnns returns the annotations for the call at pos when it belongs to the function under verification.
 func (x *Exec) siteAnns(st *State, fr *Frame, pos token.Pos) (string, []*SiteAnn) {
 	if len(st.frames) != 1 || x.curContract == nil || len(x.curContract.Sites) == 0 {
@@ -143,7 +230,16 @@ func (x *Exec) siteAnns(st *State, fr *Frame, pos token.Pos) (string, []*SiteAnn
 	if !ok {
 		return "", nil
 	}
-	return name, x.curContract.Sites[name]
+	anns := x.curContract.Sites[name]
+	if cn, ok := x.callSitesCanon(fr.fn)[pos]; ok && cn != name {
+		if more := x.curContract.Sites[cn]; len(more) > 0 {
+			if len(anns) == 0 {
+				name = cn
+			}
+			anns = append(append([]*SiteAnn(nil), anns...), more...)
+		}
+	}
+	return name, anns
 }
 
 // explicitArgs returns the call's arguments as written in the source (without a method receiver).
@@ -159,6 +255,17 @@ func explicitArgs(cc *ssa.CallCommon) []ssa.Value {
 
 func (x *Exec) siteEnvCall(st *State, fr *Frame, cc *ssa.CallCommon) *specEnv {
 	env := x.siteEnv(st, fr, cc.Pos())
+	if f := cc.StaticCallee(); !cc.IsInvoke() && f != nil && f.Signature.Recv() != nil && len(cc.Args) > 0 {
+		func() {
+			defer func() { recover() }()
+			env.vars["recv"] = x.val(st, fr, cc.Args[0]) // the method receiver
+		}()
+	} else if cc.IsInvoke() {
+		func() {
+			defer func() { recover() }()
+			env.vars["recv"] = x.val(st, fr, cc.Value)
+		}()
+	}
 	for k, a := range explicitArgs(cc) {
 		func() {
 			defer func() { recover() }()
@@ -399,6 +506,9 @@ func (x *Exec) VerifyFunc(key string) (err error) {
 	if len(c.Sites) > 0 {
 		have := map[string]bool{}
 		for _, n := range x.callSites(fn) {
+			have[n] = true
+		}
+		for _, n := range x.callSitesCanon(fn) {
 			have[n] = true
 		}
 		for site := range c.Sites {
@@ -1715,8 +1825,8 @@ func (x *Exec) checkLoopInv(st *State, fr *Frame, head *ssa.BasicBlock, phase st
 	k := x.loops(fr.fn).ord[head]
 	env := x.loopEnv(st, fr, head)
 	for _, inv := range c.LoopInv[k] {
-		if x.assumedOnly(inv) {
-			continue
+		if x.assumedOnly(inv) || (clauseHasTag(inv, "slow") && x.tier != "thorough" && x.tier != "") {
+			continue // [slow]: proved in the thorough tier, assumed (and listed) in the quick tier
 		}
 		t := x.evalBool(env, inv.Expr, inv)
 		name := fmt.Sprintf("%s/loop%d-inv#%d-%s", funcKey(fr.fn, x.pkg.Pkg), k, inv.Ord, phase)
